@@ -232,14 +232,16 @@ func (collection *linkCollectionImpl) CheckIntegrity(ctx MutateContext, fix bool
 
 	for idCursor := collection.field.GetStore().IterateValidIds(tx, ast.BoolNodeTrue); idCursor.IsValid(); idCursor.Next() {
 		id := idCursor.Current()
+		// dangling links are removed after the scan of this entity's links: deleting an entry while a cursor iterates
+		// the bucket makes the following Next() skip a link whenever the bucket has already been written in this
+		// transaction (e.g. by the repair of a one-sided link found from the other side)
+		var danglingLinks [][]byte
 		for linkCursor := collection.iterateLinksReadOnly(tx, id); linkCursor.IsValid(); linkCursor.Next() {
 			linkId := linkCursor.Current()
 			linkValid := collection.otherField.GetStore().IsEntityPresent(tx, string(linkId))
 			if !linkValid {
 				if fix {
-					if _, err := collection.RemoveLink(tx, id, linkId); err != nil {
-						return err
-					}
+					danglingLinks = append(danglingLinks, clone(linkId))
 				}
 				err := errors.Errorf("%v %v references %v %v, which doesn't exist",
 					collection.field.GetStore().GetSingularEntityType(), string(id),
@@ -255,6 +257,11 @@ func (collection *linkCollectionImpl) CheckIntegrity(ctx MutateContext, fix bool
 					collection.field.GetStore().GetSingularEntityType(), string(id),
 					collection.otherField.GetStore().GetSingularEntityType(), string(linkId))
 				errorSink(err, fix)
+			}
+		}
+		for _, linkId := range danglingLinks {
+			if _, err := collection.RemoveLink(tx, id, linkId); err != nil {
+				return err
 			}
 		}
 	}
